@@ -111,6 +111,7 @@ def required(tier):
         "rdirect_ops": 8000 if big else 800,
         "dimerr_expected_and_raised": 5000 if big else 500,
         "bare_number_addsub_refused": 400 if big else 40,
+        "converted_operand_ops": 20000 if big else 2000,
         "bare_zero_or_nan_addsub_accepted": 400 if big else 40,
         "operand_snapshots": 200000 if big else 20000,
         "container_invariant_evals": 100000,
@@ -2132,6 +2133,9 @@ def run_shard(spec, rec):
                      and all(v == int(v) for v in m.root(c)[2].values())]
             rec.count("context_pool_units", len(names))
         one_registry(ureg, m, names, spec["trees"], spec["name"])
+        if spec.get("context"):
+            run_converted_operands(ureg, m, names, rec, rng, nit, spec["context"], pint,
+                                   400 if spec.get("tier") != "thorough" else 6000)
 
     if lines is not None:
         seen, total = lines
@@ -2143,3 +2147,74 @@ def run_shard(spec, rec):
             rec.observe("anchored_functions_reached", fn)
     else:
         rec.inconc("sys.monitoring unavailable")
+
+
+
+def run_converted_operands(ureg, m, names, rec, rng, nit, ctx, pint, n):
+    """An operand that was USED, then converted in place across dimensions through a context (ito with the
+    context enabled, or ito(unit, context) with none enabled), and is used again: + - and the ordering
+    operators treat it exactly like a newly built quantity with its present magnitude and units - refusal
+    included (no memory of the dimensionality it had before the conversion)."""
+    Q = ureg.Quantity
+    import operator
+    ops = (("+", operator.add), ("-", operator.sub), ("r-", lambda u, v: v - u), ("<", operator.lt),
+           (">=", operator.ge))
+
+    def dims(u):
+        return {k: v for k, v in m.root(u)[2].items() if v}
+
+    def out(fn):
+        try:
+            r = fn()
+        except pint.DimensionalityError:
+            return ("DimensionalityError",)
+        except Exception as e:  # noqa: BLE001
+            return ("raised", type(e).__name__)
+        if isinstance(r, (bool,)) or type(r).__name__ == "bool_":
+            return ("bool", bool(r))
+        mag = r.magnitude
+        return ("ok", str(r.units), str(mag) if nit is not float else repr(round(float(mag), 9) if abs(float(mag)) < 1e6 else float(mag)))
+    for i in range(n):
+        a, b = rng.sample(names, 2)
+        if dims(a) == dims(b):
+            continue
+        passed = i % 2 == 1          # context given to ito() instead of being enabled on the registry
+        q = Q(nit(rng.randint(1, 60)), a)
+        # first use: anything the object memoises about itself is filled now
+        out(lambda: q + Q(nit(1), a))
+        out(lambda: q < Q(nit(1), rng.choice(names)))
+        q.dimensionality
+        try:
+            if passed:
+                ureg.disable_contexts()
+                try:
+                    q.ito(b, ctx)
+                finally:
+                    pass
+            else:
+                q.ito(b)
+        except Exception:  # noqa: BLE001
+            if passed:
+                ureg.enable_contexts(ctx)
+            rec.count("converted_operand_conversion_refused")
+            continue
+        # while `passed`, no context is active: same-dimension pairs must work, others must be refused
+        fresh = Q(q.magnitude, str(q.units))
+        for other in (a, b, rng.choice(names)):
+            for opn, op in ops:
+                rec.count("converted_operand_ops")
+                rec.case(("converted", a, b, other, opn, passed), nontrivial=True)
+                r_old = out(lambda: op(q, Q(nit(2), other)))
+                r_new = out(lambda: op(fresh, Q(nit(2), other)))
+                want_refusal = dims(b) != dims(other)
+                w = {"first_units": a, "converted_to": b, "other": other, "op": opn, "reused_object": list(r_old),
+                     "fresh_quantity": list(r_new), "context": ctx, "context_passed_to_ito": passed}
+                if r_old != r_new:
+                    rec.violation("converted-operand-differs-from-fresh-quantity", w, op=opn,
+                                  context_passed_to_ito=passed, reused=r_old[0], fresh=r_new[0])
+                elif want_refusal and r_old[0] != "DimensionalityError":
+                    rec.violation("error-expected-but-result-returned", w, op=opn, workload="converted-operand")
+                elif not want_refusal and r_old[0] in ("DimensionalityError", "raised"):
+                    rec.violation("result-expected-but-error-raised", w, op=opn, workload="converted-operand")
+        if passed:
+            ureg.enable_contexts(ctx)
